@@ -300,6 +300,43 @@ def literal_value(ctx, n: int) -> None:
     ctx.count('literals_assembled_and_decoded')
 
 
+def cache_value(ctx, v) -> None:
+    """the VM encoding of a number the EMBEDDER supplies (a Python int or
+    float under a str cache key, read with GET_VALUE): decoding gives the
+    number back, bit-exactly for floats"""
+    functions = env.mods()[0]
+    ctx.evaluated()
+    ctx.tab('cache_value_type', type(v).__name__)
+    try:
+        _, stack, _ = functions.run_script(
+            bytes([o_('OP_GET_VALUE'), 1]) + b'a', {'a': v},
+            stack_max_item_size=4096)
+        st = list(stack.deque)
+    except BaseException as e:
+        st = repr(e)[:80]
+    if type(v) is int:
+        from ..ref import isa
+        ok = isinstance(st, list) and len(st) == 1 and st[0] \
+            and isa.int_dec(st[0]) == v \
+            and (st[0][0] >= 0x80) == (v < 0)
+    else:
+        ok = isinstance(st, list) and len(st) == 1 \
+            and st[0] == struct.pack('>f', v)
+    if not ok:
+        ctx.violation('cache-number-encoded-wrongly', f'GET_VALUE of the '
+                      f'{type(v).__name__} {v!r} does not put its VM '
+                      'encoding', {'kind': 'cache-value', 'v': repr(v)},
+                      repr(v), [x.hex() for x in st] if isinstance(st, list)
+                      else st)
+    else:
+        ctx.count('cache_numbers_read_back')
+
+
+def o_(name):
+    from ..ref import isa
+    return isa.CODE[name]
+
+
 def int_value(ctx, n: int, deep: bool) -> None:
     """drive the codec on one integer (contracts judge)."""
     functions = env.mods()[0]
@@ -609,6 +646,13 @@ def run_shard(spec, ctx):
         for d in (-1, 0, 1):
             for sgn in (1, -1):
                 literal_value(ctx, sgn * ((1 << k) + d))
+    # numbers the embedder supplies through the cache
+    for v in list(range(-3, 4)) + [127, 128, 255, 256, -128, -129] + big[:40]:
+        cache_value(ctx, v)
+    for fv in (0.0, -0.0, 1.0, -1.0, 2.0, 0.5, 1.5, -2.5, 3.0, 255.0, 1e10,
+               float(2 ** 24), -float(2 ** 24 + 2), 1.401298464324817e-45):
+        if struct.unpack('>f', struct.pack('>f', fv))[0] == fv:
+            cache_value(ctx, fv)
 
     # (4) all 1- and 2-byte strings (+ random longer strings)
     for u in range(i, 256, of):
@@ -696,6 +740,8 @@ def replay(case, ctx):
     k = case.get('kind')
     if k == 'int':
         int_value(ctx, int(case['n_hex'], 16), True)
+    elif k == 'cache-value':
+        cache_value(ctx, eval(case['v'], {'__builtins__': {}}, {}))
     elif k == 'literal':
         literal_value(ctx, int(case['n_hex'], 16))
     elif k == 'bytes':
